@@ -59,6 +59,10 @@ pub enum ReadOp {
     DelimX,
     /// `read -r a b` (two variables; data has no blanks, so b is empty)
     TwoVars,
+    /// `mapfile -t -n K arr`: exactly K lines
+    MapfileN(u32),
+    /// `readarray -t -n 1 -u 0 arr`
+    ReadarrayOne,
 }
 
 #[derive(Clone, Debug, Serialize, Deserialize, PartialEq)]
@@ -83,6 +87,8 @@ pub enum Wrap {
     ProcSubstOut,
     /// `PIPELINE > bgout.txt & wait; simcat 64 < bgout.txt`
     Background,
+    /// `PIPELINE || probe alt` / `PIPELINE && probe alt`: `$?` seen by a later operand
+    AndOr { and: bool },
 }
 
 #[derive(Clone, Debug, Serialize, Deserialize)]
@@ -93,6 +99,9 @@ pub struct Case {
     pub pipefail: bool,
     #[serde(default)]
     pub lastpipe: bool,
+    /// status left in `$?` by the command before the pipeline
+    #[serde(default)]
+    pub pre_status: u8,
     #[serde(default)]
     pub via_entry: bool,
     pub front_end: FrontEnd,
@@ -147,7 +156,13 @@ fn render_inner(st: &Stage, idx: usize) -> String {
                     ReadOp::NExact(n) => format!("IFS= read -r -N {n} {var}"),
                     ReadOp::DelimX => format!("IFS= read -r -d x {var}"),
                     ReadOp::TwoVars => format!("read -r {var} {var}b"),
+                    ReadOp::MapfileN(k) => format!("mapfile -t -n {k} {var}"),
+                    ReadOp::ReadarrayOne => format!("readarray -t -n 1 -u 0 {var}"),
                 };
+                if matches!(op, ReadOp::MapfileN(_) | ReadOp::ReadarrayOne) {
+                    s.push_str(&format!("{cmd}; for e{idx}_{j} in \"${{{var}[@]}}\"; do echo \"R:$e{idx}_{j}\"; done; "));
+                    continue;
+                }
                 s.push_str(&format!("{cmd}; echo \"R:${var}\"; "));
             }
             s.push_str("simcat 64");
@@ -216,6 +231,9 @@ pub fn render(case: &Case) -> String {
         s.push_str("shopt -s lastpipe\n");
     }
     s.push_str(&defs);
+    if case.pre_status != 0 {
+        s.push_str(&format!("simexit {}\n", case.pre_status));
+    }
     match &case.wrap {
         Wrap::None => {
             s.push_str(&pipeline);
@@ -248,6 +266,9 @@ pub fn render(case: &Case) -> String {
         }
         Wrap::ProcSubstIn => {
             s.push_str(&format!("simcat 64 < <({pipeline})\nprobe ps\n"));
+        }
+        Wrap::AndOr { and } => {
+            s.push_str(&format!("{pipeline} {} probe alt\nprobe ao\n", if *and { "&&" } else { "||" }));
         }
         Wrap::Background => {
             s.push_str(&format!("{pipeline} > bgout.txt &\nwait\nsimcat 64 < bgout.txt\nprobe ps\n"));
@@ -323,6 +344,24 @@ pub fn model(case: &Case) -> Model {
                 let mut pos = 0usize;
                 let mut out: Vec<u8> = vec![];
                 for op in ops {
+                    if let ReadOp::MapfileN(_) | ReadOp::ReadarrayOne = op {
+                        let k = if let ReadOp::MapfileN(k) = op { *k as usize } else { 1 };
+                        for _ in 0..k {
+                            let rest = &data[pos..];
+                            if rest.is_empty() {
+                                break;
+                            }
+                            let (line, used) = match rest.iter().position(|b| *b == b'\n') {
+                                Some(i) => (rest[..i].to_vec(), i + 1),
+                                None => (rest.to_vec(), rest.len()),
+                            };
+                            pos += used;
+                            out.extend_from_slice(b"R:");
+                            out.extend_from_slice(&line);
+                            out.push(b'\n');
+                        }
+                        continue;
+                    }
                     let rest = &data[pos..];
                     let (val, used): (Vec<u8>, usize) = match op {
                         ReadOp::Line | ReadOp::PlainLine | ReadOp::TwoVars => match rest.iter().position(|b| *b == b'\n') {
@@ -347,6 +386,7 @@ pub fn model(case: &Case) -> Model {
                             Some(i) => (rest[..i].to_vec(), i + 1),
                             None => (rest.to_vec(), rest.len()),
                         },
+                        ReadOp::MapfileN(_) | ReadOp::ReadarrayOne => unreachable!(),
                     };
                     pos += used;
                     out.extend_from_slice(b"R:");
@@ -558,7 +598,9 @@ impl C11 {
                     let line_len = 2 + pad; // tag + at least one digit + pad
                     let nops = rng.range(1, 3);
                     let ops = (0..nops)
-                        .map(|_| match rng.below(9) {
+                        .map(|_| match rng.below(12) {
+                            9..=10 => ReadOp::MapfileN(rng.range(1, 2) as u32),
+                            11 => ReadOp::ReadarrayOne,
                             0..=2 => ReadOp::Line,
                             3 => ReadOp::PlainLine,
                             4..=5 => ReadOp::NChars(*rng.pick(&[1u32, 2, 5, 9, 40, 200])),
@@ -606,6 +648,7 @@ impl C11 {
                 3 => Wrap::ProcSubstIn,
                 4 => Wrap::ProcSubstOut,
                 5 => Wrap::Background,
+                6 => Wrap::AndOr { and: rng.below(2) == 0 },
                 _ => Wrap::None,
             },
         };
@@ -642,7 +685,8 @@ impl C11 {
         }
         let lastpipe = rng.below(5) == 0;
         let via_entry = rng.below(5) == 0;
-        Case { class, stages, wrap, pipefail: rng.below(3) == 0, lastpipe, via_entry, front_end, cfg }
+        let pre_status = *rng.pick(&[0u8, 0, 1, 3, 4, 5, 7, 141]);
+        Case { class, stages, wrap, pipefail: rng.below(3) == 0, lastpipe, pre_status, via_entry, front_end, cfg }
     }
 }
 
@@ -751,7 +795,7 @@ pub fn judge(case: &Case) -> Verdict {
 
     // 3. statuses
     let probe = r.events.iter().find_map(|e| match &e.kind {
-        EventKind::Probe { tag, status, extra, .. } if tag == "st" || tag == "cs" || tag == "fn" || tag == "ncs" || tag == "ps" => Some((tag.clone(), *status, extra.clone())),
+        EventKind::Probe { tag, status, extra, .. } if tag == "st" || tag == "cs" || tag == "fn" || tag == "ncs" || tag == "ps" || tag == "ao" => Some((tag.clone(), *status, extra.clone())),
         _ => None,
     });
     let Some((tag, status, extra)) = probe else {
@@ -795,6 +839,26 @@ pub fn judge(case: &Case) -> Verdict {
         }
         if status != want {
             v.violation = Some(viol("C11/status/overall", format!("$?={status}, PIPESTATUS={ps:?}, pipefail={}, bang={}; want {want}; script={script:?}", case.pipefail, case.wrap == Wrap::Bang), None));
+            return v;
+        }
+    } else if tag == "ao" {
+        // the operand after `||` / `&&` runs iff the pipeline failed / succeeded, and sees its status
+        let Wrap::AndOr { and } = case.wrap else { return v };
+        let allowed = allowed_overall(&m.allowed, case.pipefail);
+        let alt = r.events.iter().find_map(|e| match &e.kind {
+            EventKind::Probe { tag, status, .. } if tag == "alt" => Some(*status),
+            _ => None,
+        });
+        let ok = match alt {
+            Some(st) => allowed.contains(&st) && (if and { st == 0 } else { st != 0 }),
+            None => allowed.iter().any(|st| if and { *st != 0 } else { *st == 0 }),
+        };
+        if !ok {
+            v.violation = Some(viol(
+                "C11/status/and-or-operand",
+                format!("the operand after `{}` saw $?={alt:?} (None = did not run); the pipeline's status may be {allowed:?}; script={script:?}", if and { "&&" } else { "||" }),
+                None,
+            ));
             return v;
         }
     } else if tag == "ncs" || tag == "ps" {
@@ -909,6 +973,11 @@ impl Check for C11 {
         if c.lastpipe {
             let mut d = c.clone();
             d.lastpipe = false;
+            out.push(d);
+        }
+        if c.pre_status != 0 {
+            let mut d = c.clone();
+            d.pre_status = 0;
             out.push(d);
         }
         for i in 0..c.stages.len() {
